@@ -157,6 +157,7 @@ def run(w: World, rep: Report):
     # ---- R6 DEF binds, CALL runs the binding -----------------------------------
     _def_call(w, rep)
     _operand_decoders(w, rep)
+    _zero_padding(w, rep)
 
     # ---- R4 / R5 documented operands and stack effect ---------------------------
     _effects_table(w, rep)
@@ -171,7 +172,7 @@ def run(w: World, rep: Report):
     depend(rep, w, 'rules_c03', ('C03.R1', 'C03.R2', 'C03.R4'), 'C06.TD3',
            'OP_CHECK_MULTISIG behaves as documented: false when a key is used more than once, true only with all m '
            'confirmed, pair checks fed (sig, key) on the script\'s own stack (C03.R1/R2/R4 re-evaluated)', floor=6)
-    depend(rep, w, 'rules_c09', ('C09.R2', 'C09.R3'), 'C06.TD9',
+    depend(rep, w, 'rules_c09', ('C09.R2', 'C09.R3', 'C09.R7'), 'C06.TD9',
            'what an instruction does depends on the flags of the run: the flags supplied by the embedder (and set by the '
            'script) reach the bodies run by CALL, LOOP, IF, TRY and EVAL unchanged (C09.R2/R3 re-evaluated)', floor=16)
     rep.explanation = (
@@ -589,3 +590,29 @@ def _decodes_stack_item(w: World, fi, fns, depth: int) -> bool:
             if _decodes_stack_item(w, w.handlers[c.func.id], fns, depth + 1):
                 return True
     return False
+
+
+def _zero_padding(w: World, rep: Report):
+    """XOR / OR / AND are documented to pad the shorter operand with x00 up to the length of the longer one and then
+    work byte by byte over the whole length."""
+    rep.rule('C06.R9', 'the bitwise instructions pad the shorter operand with x00 (both directions) before combining the '
+             'operands over their full length', floor=3)
+    helper_of = {'OP_XOR': 'xor', 'OP_OR': 'or_bytes', 'OP_AND': 'and_bytes'}
+    for op, helper in helper_of.items():
+        fi = w.handler_for(op)
+        pads = []
+        for lp in [x for x in ast.walk(fi.node) if isinstance(x, ast.While)]:
+            for a in [y for y in ast.walk(lp) if isinstance(y, ast.AugAssign) and isinstance(y.op, ast.Add)]:
+                if isinstance(a.value, ast.Constant) and isinstance(a.value.value, bytes):
+                    pads.append((a.value.value, a.lineno))
+        for c in [x for x in ast.walk(fi.node) if isinstance(x, ast.Call) and isinstance(x.func, ast.Attribute) and
+                  x.func.attr in ('ljust', 'rjust') and len(x.args) == 2 and isinstance(x.args[1], ast.Constant)]:
+            pads.append((c.args[1].value if c.func.attr == 'ljust' else b'<left>', c.lineno))
+        calls = [x for x in ast.walk(fi.node) if isinstance(x, ast.Call) and isinstance(x.func, ast.Name) and x.func.id == helper]
+        if len(pads) != 2 or len(calls) != 1:
+            raise AnalysisError(f'{op}: padding loops / call of {helper} not recognised (pads {len(pads)}, calls {len(calls)})')
+        wrong = [p for p in pads if p[0] != b'\x00']
+        rep.check('C06.R9', f'functions.{fi.name}|pads-with-zero-bytes', not wrong, line=wrong[0][1] if wrong else fi.node.lineno,
+                  file='tapescript/functions.py',
+                  why='' if not wrong else f'{op} pads the shorter operand with {wrong[0][0]!r}, documented: x00 (on the right) - '
+                  f'operands of different lengths combine to another value')
